@@ -5,6 +5,7 @@ go 1.16
 require (
 	github.com/gorilla/websocket v1.5.3
 	github.com/lorenzodonini/ocpp-go v0.0.0
+	gopkg.in/go-playground/validator.v9 v9.30.0
 )
 
 replace github.com/lorenzodonini/ocpp-go => /repo
